@@ -1077,6 +1077,13 @@ func (ds *AnySource) ConfigurePulseLengths(nsamp, npre int) error {
 		nsamp < npre+1 { // require at least one post trigger sample
 		return fmt.Errorf("ConfigurePulseLengths nsamp %v, npre %v are invalid", nsamp, npre)
 	}
+	// Every channel has to accept the new lengths before any channel is changed (a channel with an
+	// edge-multi trigger can refuse them): a refused request must leave all channels as they were.
+	for _, dsp := range ds.processors {
+		if err := dsp.checkPulseLengths(nsamp, npre); err != nil {
+			return err
+		}
+	}
 	for _, dsp := range ds.processors {
 		if err := dsp.ConfigurePulseLengths(nsamp, npre); err != nil {
 			return err
